@@ -289,6 +289,7 @@ int main(int argc, char** argv) {
   // Deadlines are kept off the scheduler's 10 ns grid: Scheduler::SleepPreemptive (fault layer, C18's subject) looks up
   // _sleep_list.end() when a deadline equals the current virtual time.  -5: already passed when the wait starts.
   const long deadlines[] = {-5, 15, 55, 1000005};
+  const bool light = m.Param("light") == "1";
   for (int form = 0; form < kForms; ++form) {
     for (int n = 1; n <= 3; ++n) {
       if (form == kMW && n == 1) {
@@ -299,6 +300,11 @@ int main(int argc, char** argv) {
           continue;
         }
         for (int l = 0; l < 3; ++l) {
+          // --param light=1 (quick tier): the ticker scenarios (n = 1, deadline in the near future) only with one
+          // rotation of the later consumers and not for the iterator forms (count == 1 delegates to WaitCore)
+          if (light && n == 1 && Timed(form) && d > 0 && d < 1000 && (l != 0 || form == kWFI || form == kWUI)) {
+            continue;
+          }
           std::string name = std::string(kFormNames[form]) + "/n" + std::to_string(n) + "/d" + std::to_string(d) +
                              "/l" + std::to_string(l);
           m.Scenario(name, [=] {
